@@ -144,8 +144,14 @@ def rule_delegation_pairs(ctx):
         calls_sib = [s for s in pb.calls() if prog.body_for_callee(callee_of(s), pb) is cb] if True else []
         if calls_sib:
             # returns field 0 of the sibling's result
-            ok = any(o.kind == "call" and o.site.bb == calls_sib[0].bb and tuple(str(f) for f in o.fields) == ("0",) for o in origins(pb, {"l": 0, "p": []}, transparent=()))
+            ros = origins(pb, {"l": 0, "p": []}, transparent=())
+            ok = any(o.kind == "call" and o.site.bb == calls_sib[0].bb and tuple(str(f) for f in o.fields) == ("0",) for o in ros)
             r.check(ok, pb.id, "not-dot-zero", "returns `.0` of the certificate variant", "delegates to the certificate variant but does not return its status unchanged", pb.loc())
+            own = [o for o in ros if not (o.kind == "call" and any(o.site.bb == cs.bb for cs in calls_sib) and tuple(str(f) for f in o.fields) == ("0",)) and o.kind not in ("undef", "partial")]
+            if ok and own:
+                # a shortcut of the plain variant can be right (a grounded member is in every preferred extension) or wrong (.. but not in a
+                # stable extension that does not exist): that is a fact about the semantics
+                r.ok(pb.id + "|only", "NOT decided: besides delegating, the plain variant answers on its own on some path (%s); whether that shortcut agrees with the certificate variant is not decided" % ", ".join(sorted({("the constant %s" % str(o.data.get("bool")).lower()) if o.kind == "const" else ("a value computed by " + (callee_decl(o.data).rsplit("::", 1)[-1] if o.kind == "call" else o.kind)) for o in own})), (own[0].site.loc() if own[0].site else pb.loc()))
         else:
             sat = any(callee_matches(callee_of(s), SINK) for x in prog.reachable_from([pb], False).values() for s in x.calls())
             helper = [t for _, t in prog.callees(pb, include_closures=False, virtual_dispatch=False)]
